@@ -78,7 +78,8 @@ CHECKS = {
             "Queries are pure functions of a small graph: the input space up to the bound is enumerated completely.",
             "bounded node count (3 nodes x lists<=3, 4 nodes x lists<=2) plus level graphs of restructured E(n)"),
     "C14": ("explicit-state BFS over edit-operation sequences with canonical-dump deduplication, each transition the real method, compared "
-            "in lock-step with a plain-dict reference model; product construction for path preservation; initial states: flat, "
+            "in lock-step with a plain-dict reference model (arcs, and the value tables of branching predecessors key by key); product "
+            "construction for path preservation; initial states: flat, "
             "loop-restructured and fully restructured graphs under several namings incl. generator-style names",
             "Histories of edit operations with all P/S choices up to the bound are explored exhaustively, from flat graphs and from "
             "loop-restructured graphs (region and branching-synthetic predecessors).",
@@ -100,7 +101,8 @@ CHECKS = {
             "invariant evaluated at the moment a name is handed out.",
             "wrapping happens inside the checker process; bounded depth / reloads"),
     "C16": ("exhaustive enumeration of closed CFGs x {input, J, JL, JLB}; iterator and concealed view of every (sub)graph compared "
-            "with the hierarchy; view objects taken at one stage are traversed again after the next (history)",
+            "with the hierarchy; view objects taken at one stage are traversed again after the next, and two live iterators of the same "
+            "graph / view are advanced in strict alternation (histories)",
             "Every sub-region at every depth of every enumerated hierarchy is iterated and compared.", "bounded scope"),
 }
 
